@@ -4,8 +4,10 @@ import Mamba.Model.Tsp
 
 An independent, deliberately naive reader: cut the bytes into lines at `\n`, cut every line into fields at
 blanks (empty fields dropped).  `expected n w` is what a well formed, faithful `LOWER_DIAG_ROW` file for `n`
-cities and weights `w` must read back as: the six header lines with `DIMENSION: n`, then for `i = 0 … n-1` the row
-`w(i,0) … w(i,i-1) 0`, then `EOF`, then nothing (the empty piece after the final line break).
+cities and weights `w` must read back as: the header lines with `DIMENSION: n`, then for `i = 0 … n-1` the row
+`w(i,0) … w(i,i-1) 0`, then `EOF`, then nothing (the empty piece after the final line break).  The header and
+trailer keywords are the string literals of the Go source (regenerated into `Gen/TspConsts.lean` on every run);
+`expectedHeader_tokens` / `expectedTrailer_tokens` in `Props/C20.lean` pin them to the TSPLIB keywords.
 -/
 namespace Tsp
 
@@ -22,19 +24,24 @@ def fields (l : List Char) : List (List Char) := (splitOn ' ' l).filter (fun p =
 
 def parse (o : List Char) : List (List (List Char)) := (lines o).map fields
 
-def expectedHeader (n : Nat) : List (List (List Char)) :=
-  [["TYPE:".toList, "TSP".toList],
-   ["DIMENSION:".toList, decNat n],
-   ["DISPLAY_DATA_TYPE:".toList, "NO_DISPLAY".toList],
-   ["EDGE_WEIGHT_TYPE:".toList, "EXPLICIT".toList],
-   ["EDGE_WEIGHT_FORMAT:".toList, "LOWER_DIAG_ROW".toList],
-   ["EDGE_WEIGHT_SECTION".toList]]
+/-- the text `LIB` writes before the weight section, from the string literals regenerated from `tsp/tsplib.go`
+(`hdrBeforeN`, `hdrAfterN` = `Gen.Tsp.hdrBeforeN`, `Gen.Tsp.hdrAfterN`: the concatenation of everything written before the weights, split at
+the `%d` of the dimension) -/
+def headerText (n : Nat) : List Char := hdrBeforeN.toList ++ (decNat n ++ hdrAfterN.toList)
+
+/-- the text written after the weight section (regenerated) -/
+def trailerText : List Char := (trailerLits.map String.toList).flatten
+
+/-- the header lines as they read back (the piece after the last line break is dropped).  For the current source
+this is `TYPE: TSP`, `DIMENSION: n`, … `EDGE_WEIGHT_SECTION` — theorem `expectedHeader_tokens` in `Props/C20.lean`,
+which stops compiling when a keyword of the header changes. -/
+def expectedHeader (n : Nat) : List (List (List Char)) := ((lines (headerText n)).dropLast).map fields
 
 def expectedRow (w : Nat → Nat → Int) (i : Nat) : List (List Char) :=
   (List.range i).map (fun j => decInt (w i j)) ++ [['0']]
 
 def expected (n : Nat) (w : Nat → Nat → Int) : List (List (List Char)) :=
-  expectedHeader n ++ (List.range n).map (expectedRow w) ++ [["EOF".toList], []]
+  expectedHeader n ++ (List.range n).map (expectedRow w) ++ (lines trailerText).map fields
 
 /-- value of a string of decimal digits (for the statement that `decNat` is the decimal numeral) -/
 def digitsValue (l : List Char) : Nat := l.foldl (fun a c => 10 * a + (c.toNat - '0'.toNat)) 0
